@@ -1,7 +1,7 @@
 #!/bin/bash
 # Generates the build workspace for a given repository tree and builds the simulator.
 # usage: build.sh [repo path]   (prints the path of the desim binary on the last line)
-set -euo pipefail
+set -uo pipefail
 VERIF="$(cd "$(dirname "${BASH_SOURCE[0]}")" && pwd)"
 REPO="${1:-${VERIF_REPO:-/repo}}"
 REPO="$(cd "$REPO" && pwd)"
@@ -20,8 +20,14 @@ gen "$VERIF/desim/Cargo.toml.in" "$WS/desim/Cargo.toml"
 gen "$VERIF/workspace.toml.in" "$WS/Cargo.toml"
 [ -f "$WS/Cargo.lock" ] || cp "$VERIF/Cargo.lock.seed" "$WS/Cargo.lock"
 export RUSTFLAGS="--cfg logicalshift_desync_verif"
-( cd "$WS" && cargo build --release --offline -p desim 2>&1 ) | grep -v "^warning: unused\|^\s*$" | tail -${VERIF_BUILD_TAIL:-15} >&2 || true
+# a library that uses try_lock can observe a lock being held: lock holders then become preemptible right after acquiring (rt/src/sync.rs)
+if grep -rqs "try_lock" "$REPO/src"; then export RUSTFLAGS="$RUSTFLAGS --cfg verif_preempt_lock_holders"; fi
+BLOG="$TROOT/build-$KEY.log"
+( cd "$WS" && cargo build --release --offline -p desim ) >"$BLOG" 2>&1
+RC=$?
+grep -v "^warning: unused\|^\s*$" "$BLOG" | tail -${VERIF_BUILD_TAIL:-15} >&2 || true
 BIN="$CARGO_TARGET_DIR/release/desim"
-[ -x "$BIN" ] || { echo "build failed" >&2; exit 2; }
+# a failed build must never fall back on a binary left over from an earlier tree
+if [ $RC -ne 0 ] || [ ! -x "$BIN" ]; then echo "build failed" >&2; exit 2; fi
 # the binary must be newer than every source it depends on (cargo guarantees this on success)
 echo "$BIN"
